@@ -269,6 +269,14 @@ func runC08(e *Env) {
 	case 2:
 		stream = mutateStream(e, spec, stream, bounds)
 		desc = "valid frames with one mutated header"
+		if spec.Max <= 5000 && e.P(3) != 0 {
+			// plenty of bytes behind it: a decoder that believes an oversized header can be seen pulling more than its
+			// maximum from the transport (admissible frames alone rarely add up to that much)
+			for i := 0; i < spec.Max+64; i++ {
+				stream = append(stream, 0xEE)
+			}
+			desc += fmt.Sprintf(" followed by %d filler bytes", spec.Max+64)
+		}
 	}
 	var endErr error
 	endName := "EOF"
